@@ -1,6 +1,7 @@
 package checks
 
 import (
+	"crypto"
 	"crypto/ecdsa"
 	"crypto/elliptic"
 	"errors"
@@ -573,6 +574,79 @@ func runC16(c *Ctx) {
 			}
 		})
 	}
+	// ---------------- a key object given another key after the signer / verifier was first used ----------------
+	// the form of a signature follows the curve of the key that is used for it, not of the key that the
+	// object held when the signer or verifier was made or first used
+	for i := 0; i < c.N(60, 600); i++ {
+		rr := mon.NewRand(uint64(c.Seed)).Sub(uint64(179000 + i))
+		from, to := curves[i%3], curves[(i+1+i/3%2)%3]
+		alg := c16algs[i%3]
+		k1, k2 := gen.ECKey(from, rr), gen.ECKey(to, rr)
+		msg := rr.Bytes(1 + rr.Intn(40))
+		in := map[string]any{"case": i, "family": "key object re-keyed in place", "from": from.Params().Name, "to": to.Params().Name}
+		for _, path := range []string{"native", "generic", "stub"} {
+			live := *k1 // the object the signer and the verifier hold on to
+			var ks crypto.Signer = &live
+			stub := &refcrypto.StubECDSASigner{Pub: &live.PublicKey, R: big.NewInt(1 + int64(rr.Intn(250))), S: big.NewInt(1 + int64(rr.Intn(250)))}
+			switch path {
+			case "generic":
+				ks = refcrypto.WrapSigner{K: &live}
+			case "stub":
+				ks = stub
+			}
+			signer, e1 := cose.NewSigner(alg, ks)
+			verifier, e2 := cose.NewVerifier(alg, &live.PublicKey)
+			if e1 != nil || e2 != nil {
+				rec.HarnessError(fmt.Sprintf("re-keyed family: %v %v", e1, e2))
+				continue
+			}
+			var s1, s2 []byte
+			var err1, err2, v1, v2 error
+			v3 := error(cose.ErrVerification)
+			if guard(rec, "re-keyed/"+path, in, func() {
+				s1, err1 = signer.Sign(gen.Entropy, msg)
+				if err1 == nil && path != "stub" {
+					v1 = verifier.Verify(msg, s1)
+				}
+				live = *k2
+				s2, err2 = signer.Sign(gen.Entropy, msg)
+				if err2 == nil && path != "stub" {
+					v2 = verifier.Verify(msg, s2)
+					// the form the first key's curve would have had: the same numbers at the other width
+					n1, n2 := refcrypto.OrderSize(from), refcrypto.OrderSize(to)
+					if len(s2) == 2*n2 && n1 > n2 {
+						other := make([]byte, 2*n1)
+						copy(other[n1-n2:n1], s2[:n2])
+						copy(other[2*n1-n2:], s2[n2:])
+						v3 = verifier.Verify(msg, other)
+					} else {
+						v3 = cose.ErrVerification
+					}
+				}
+			}) {
+				continue
+			}
+			rec.Eval(1)
+			rec.Event("re-keyed-in-place")
+			rec.Class(fmt.Sprintf("re-keyed/%s/%s->%s", path, from.Params().Name, to.Params().Name))
+			n1, n2 := refcrypto.OrderSize(from), refcrypto.OrderSize(to)
+			switch {
+			case err1 != nil || err2 != nil:
+				rec.Violate("form", "re-keyed/"+path, fmt.Sprintf("signing failed: %v / %v", err1, err2), in)
+			case len(s1) != 2*n1:
+				rec.Violate("form", "re-keyed/"+path+"/first", fmt.Sprintf("first signature has %d bytes, curve order has %d", len(s1), n1), in)
+			case len(s2) != 2*n2:
+				rec.Violate("form", "re-keyed/"+path+"/second", fmt.Sprintf("after the key object was given a %s key the signature has %d bytes, the curve order has %d", to.Params().Name, len(s2), n2), in)
+			case v1 != nil || v2 != nil:
+				rec.Violate("verifier-refused-canonical", "re-keyed/"+path, fmt.Sprintf("verifier over the same key object: first %v, after re-keying %v", v1, v2), in)
+			case v3 == nil:
+				rec.Violate("verifier-accepted-other-form", "re-keyed/"+path, "after re-keying the verifier accepts the signature at the first key's width", in)
+			case path == "stub" && !eqBytes(s2, refcrypto.EncodeRS(to, stub.R, stub.S)):
+				rec.Violate("form", "re-keyed/stub/content", "r || s not left-padded to the second key's order size: "+hexs(s2), in)
+			}
+		}
+	}
+	rec.Require("re-keyed-in-place", 100)
 	for _, cv := range curves {
 		rec.Require("native:leading-zero-in-r:"+cv.Params().Name, 1)
 		rec.Require("native:leading-zero-in-s:"+cv.Params().Name, 1)
